@@ -77,7 +77,16 @@ pub fn hash_find(x: &mut Exec, op: &Value) -> Value {
     let hb = x.buf(op, "hash");
     let symb = x.buf(op, "sym");
     let strb = x.buf(op, "str");
-    let name = rd_bytes(&op["name"]);
+    let name_owned = rd_bytes(&op["name"]);
+    // name_alias = [off, len]: the query is a sub-slice OF THE STRING TABLE BUFFER itself (same bytes as `name`)
+    let name: &[u8] = match op.get("name_alias").and_then(|v| v.as_array()) {
+        Some(a) => {
+            let (o, l) = (a[0].as_u64().unwrap_or(0) as usize, a[1].as_u64().unwrap_or(0) as usize);
+            if o + l > strb.len() || strb[o..o + l] != name_owned[..] { panic!("harness: name_alias does not designate the name"); }
+            &strb[o..o + l]
+        }
+        None => &name_owned[..],
+    };
     let class = class_of(&op["class"]);
     let es = op["es"].as_str().unwrap();
     let sysv = op["op"] == "sysv_find";
@@ -89,7 +98,7 @@ pub fn hash_find(x: &mut Exec, op: &Value) -> Value {
             if sysv {
                 match SysVHashTable::new(e, class, hb) {
                     Err(er) => (Some(er), None, None),
-                    Ok(t) => match t.find(&name, &symtab, &strtab) { Ok(v) => (None, Some(v), None), Err(er) => (None, None, Some(er)) },
+                    Ok(t) => match t.find(name, &symtab, &strtab) { Ok(v) => (None, Some(v), None), Err(er) => (None, None, Some(er)) },
                 }
             } else {
                 match GnuHashTable::new(e, class, hb) {
@@ -106,7 +115,7 @@ pub fn hash_find(x: &mut Exec, op: &Value) -> Value {
                               other => panic!("harness: bad hdr field {other}"),
                           }
                       }
-                      match t.find(&name, &symtab, &strtab) { Ok(v) => (None, Some(v), None), Err(er) => (None, None, Some(er)) } },
+                      match t.find(name, &symtab, &strtab) { Ok(v) => (None, Some(v), None), Err(er) => (None, None, Some(er)) } },
                 }
             }
         });
